@@ -349,11 +349,13 @@ result_t DateTimeDataType::readSymbols(size_t offset, size_t length, const Symbo
       case 2:  // date only
         if (!hasFlag(REQ) && (symbol == m_replacement || (!hasFlag(REZ) && symbol == 0))) {
           if (i + 1 != length) {
-            *output << NULL_VALUE << ".";
+            if (length != 2) {  // for number of days the value is only null if both bytes are
+              *output << NULL_VALUE << ".";
+            }
             break;
           } else if (last == m_replacement || (!hasFlag(REZ) && last == 0)) {
             if (length == 2) {  // number of days since 01.01.1900
-              *output << NULL_VALUE << ".";
+              *output << NULL_VALUE << "." << NULL_VALUE << ".";
             }
             *output << NULL_VALUE;
             break;
